@@ -197,7 +197,7 @@ void rand_seed(uint8_t *buf, size_t size) {
 		rand_hash(ctx->rand + 1 + len, len, ctx->rand, len + 1);
 	} else {
 		/* V = hash_df(01 || V || seed). */
-        int tmp_size = 1 + len + size;
+		size_t tmp_size = 1 + len + size;
 		uint8_t* tmp = RLC_ALLOCA(uint8_t, tmp_size);
 		if (tmp == NULL) {
 			RLC_THROW(ERR_NO_MEMORY);
